@@ -71,7 +71,7 @@ pub fn texts(rows: &[V]) -> String {
 
 /// The same command line in another documented spelling (variant 1: the other long name of every option that has
 /// one; 2: short options with the value as a separate word; 3: long options with the value as a separate word;
-/// 4: short options with the value attached; 5 and 6: the spellings MIXED within one command line - every other
+/// 4: short options with the value attached; 5, 6 and 7: the spellings MIXED within one command line - every other
 /// occurrence of an option in its second long name / as a short option with a separate word). Arguments are expected in the `--name=value` / `--flag` form.
 /// A value-less `--group-by`/`--merge` never ends up in front of another word.
 pub fn respell(args: &[String], variant: usize) -> Vec<String> {
@@ -97,8 +97,8 @@ pub fn respell(args: &[String], variant: usize) -> Vec<String> {
         let variant = if mixed {
             occurrence += 1;
             match (variant, occurrence % 2) {
-                (5, 1) => 1,
-                (5, _) => 0,
+                (5, 1) | (7, 0) => 1,
+                (5, _) | (7, _) => 0,
                 (_, 1) => 0,
                 _ => 2,
             }
@@ -174,6 +174,39 @@ pub fn run_rows(ctx: &mut Ctx, case: &Case, sig: &str) -> (Obs, Outcome) {
             (obs, Outcome::Broken)
         }
     }
+}
+
+/// The same case with its command line in another documented spelling (one of the 7 variants of `respell`, chosen
+/// by the case itself so that the variants rotate over the cases of a check): the whole observation must be identical.
+pub fn check_respelled(ctx: &mut Ctx, case: &Case, obs: &Obs, sig: &str) {
+    if !matches!(case.input, crate::drive::Input::Stdin(_)) {
+        return;
+    }
+    let first = 1 + (crate::ctx::h64(&(&case.args, ctx.rep.evaluations)) as usize) % 7;
+    for k in 0..7 {
+        let variant = 1 + (first - 1 + k) % 7;
+        let a = respell(&case.args, variant);
+        if a == case.args {
+            continue;
+        }
+        let mut c2 = case.clone();
+        c2.args = a;
+        let o2 = ctx.run(&c2);
+        ctx.guard("command-line-respelled");
+        if o2.res != obs.res || o2.stdout != obs.stdout || o2.stderr != obs.stderr {
+            ctx.violation("output-depends-on-the-spelling-of-the-options", &format!("{sig} spelling#{variant}"), &[c2, case.clone()], obs.brief(), o2.brief());
+        }
+        return;
+    }
+}
+
+/// `run_rows`, then the same case in another spelling of its command line
+pub fn run_rows_respelled(ctx: &mut Ctx, case: &Case, sig: &str) -> (Obs, Outcome) {
+    let (obs, out) = run_rows(ctx, case, sig);
+    if matches!(out, Outcome::Rows(_)) {
+        check_respelled(ctx, case, &obs, sig);
+    }
+    (obs, out)
 }
 
 /// how two row lists differ (for signatures)
